@@ -547,6 +547,38 @@ def rule_r9(ctx):
         raise AnalysisBroken("only %d protocol pump callbacks recognised" % n)
 
 
+def rule_r11(ctx):
+    r = ctx.rule("C11.R11", "T1", "the peer is validated before the pipe is used: in every protocol's pipe_start, each call (other than "
+                 "reading the peer id, logging, statistics and taking the socket lock) is made only on the edge on which "
+                 "nni_pipe_peer(...) matched the expected protocol -- a peer of the wrong protocol is refused before it is "
+                 "given queued messages, scheduled, or registered", floor=15)
+    prog = ctx.prog
+    HARMLESS = ("nni_pipe_peer", "nng_log_warn", "nng_log_debug", "nng_log_info", "nni_pipe_id", "nni_stat_inc", "nni_mtx_lock",
+                "nni_mtx_unlock", "nni_sock_id", "nni_pipe_sock", "nni_atomic_get")
+    n = 0
+    for f in prog.slot_fns("nni_proto_pipe_ops.pipe_start"):
+        if f.cfg_failed:
+            continue
+        ok = {}
+        for bid, k, atom, val in G.edge_facts(f):
+            if any(m.get("k") == "call" and m.get("fn") == "nni_pipe_peer" for m in walk(atom)) and atom.get("k") == "bin":
+                if (atom["op"] == "==" and val) or (atom["op"] == "!=" and not val):
+                    ok[bid] = k
+        if not ok:
+            raise AnalysisBroken("%s does not compare nni_pipe_peer with the expected protocol" % f.name)
+        n += 1
+        bad = [c for c in f.calls() if c.node.get("fn") not in HARMLESS and not G.dominated(f, (c.b, c.i), ok)]
+        if bad:
+            ctx.fail(r, f, "%s before the peer check" % (bad[0].node.get("fn") or "call"), bad[0].line,
+                     "%s calls %s at line %s on a path that has not yet established that the peer speaks the expected protocol: "
+                     "a connection that is about to be refused with NNG_EPROTO is already used (given a queued message, "
+                     "scheduled for receive, registered)" % (f.name, show(bad[0].node)[:60], bad[0].line))
+        else:
+            r.ob(f, "everything after the peer check")
+    if n < 15:
+        raise AnalysisBroken("only %d pipe_start functions found" % n)
+
+
 def run(ctx):
     ctx.guard(rule_r1)
     ctx.guard(rule_r2)
@@ -558,3 +590,4 @@ def run(ctx):
     ctx.guard(rule_r8)
     ctx.guard(rule_r9)
     ctx.guard(rule_r10)
+    ctx.guard(rule_r11)
